@@ -132,8 +132,10 @@ def search(rep: C.Report, tier: str, broken):
         zeroPoly = Polynomial(np.zeros((0, grid.M - 1)), grid, direction=("Array", "z"), basis=("Array", "Cardinal"))
         deltas = BoltzmannDeltas(Delta00=zeroPoly, Delta02=zeroPoly, Delta20=zeroPoly, Delta11=zeroPoly)
         slow = [v for v in (0.04, 0.08) if v > 1.1 * h.vMin]        # slow walls: |v| << 1 inside the wall (non-relativistic regime)
-        vws = slow[:1] + [0.3, 0.5 * (math.sqrt(float(th.csqLowT(Tn))) + h.vJ), min(h.vJ + 0.1, 0.95)] if tier == "quick" else \
-            slow + [0.1, 0.3, 0.5, 0.5 * (math.sqrt(float(th.csqLowT(Tn))) + h.vJ), h.vJ + 0.05, 0.8, 0.95]
+        # detonations only just above vJ as well: there T- exceeds the temperature where the residual of the profile equation has its minimum
+        # in front of the wall, so which side of that minimum is searched decides between the supersonic and the subsonic root
+        vws = slow[:1] + [0.3, 0.5 * (math.sqrt(float(th.csqLowT(Tn))) + h.vJ), h.vJ + 3e-4, min(h.vJ + 0.1, 0.95)] if tier == "quick" else \
+            slow + [0.1, 0.3, 0.5, 0.5 * (math.sqrt(float(th.csqLowT(Tn))) + h.vJ), h.vJ + 1e-4, h.vJ + 3e-4, h.vJ + 1.5e-3, h.vJ + 4e-3, h.vJ + 0.05, 0.8, 0.95]
         for vw in vws:
             try:
                 c1, c2, Tp, Tm, vmid = h.findHydroBoundaries(vw)
